@@ -677,6 +677,16 @@ func (e *Engine) addrMods(addr ssa.Value, m *modSet, seenCell map[*ssa.Alloc]boo
 		}
 		return
 	}
+	if fv, ok := v.(*ssa.FreeVar); ok {
+		// a free variable of a closure verified in place names a local cell of the enclosing function
+		if a := e.capturedCell(fv); a != nil && e.isLocalCell(a) {
+			if !seenCell[a] {
+				seenCell[a] = true
+				m.cells = append(m.cells, a)
+			}
+			return
+		}
+	}
 	if _, ok := v.(*ssa.Global); ok {
 		m.ghost["global:"+v.Name()] = true
 		return
@@ -2281,4 +2291,37 @@ func localClosureOf(v ssa.Value) *ssa.Function {
 		return nil
 	}
 	return fn
+}
+
+// capturedCell: the variable of the enclosing function that a free variable of an anonymous function is bound to,
+// when every closure made from that function binds the same Alloc.
+func (e *Engine) capturedCell(fv *ssa.FreeVar) *ssa.Alloc {
+	fn := fv.Parent()
+	if fn == nil || fn.Parent() == nil {
+		return nil
+	}
+	idx := -1
+	for i, x := range fn.FreeVars {
+		if x == fv {
+			idx = i
+		}
+	}
+	if idx < 0 {
+		return nil
+	}
+	var found *ssa.Alloc
+	for _, b := range fn.Parent().Blocks {
+		for _, in := range b.Instrs {
+			mc, ok := in.(*ssa.MakeClosure)
+			if !ok || mc.Fn != fn || idx >= len(mc.Bindings) {
+				continue
+			}
+			a, ok := mc.Bindings[idx].(*ssa.Alloc)
+			if !ok || (found != nil && found != a) {
+				return nil
+			}
+			found = a
+		}
+	}
+	return found
 }
